@@ -193,7 +193,7 @@ fn token_ranges(text: &str) -> Vec<(usize, usize)> {
     let mut out = Vec::new();
     let mut prev = 0usize;
     for t in toks {
-        let s = t.span;
+        let s = crate::harness::sp_of(&t.span);
         let start = rows.get(s.line_start.wrapping_sub(1)).and_then(|r| r.get(s.col_start.wrapping_sub(1))).copied();
         if let Some(st) = start {
             if st >= prev {
